@@ -38,6 +38,8 @@ Inductive expr :=
 | EWhile (c body : expr)
 | EDoWhile (body c : expr)
 | EFor (init cond incr body : expr)
+| EForInRange (x : ident) (a b : expr) (body : expr)   (* for (x in [a .. b]) body *)
+| EForInArr (x : ident) (arr : expr) (body : expr)     (* for (x in arr) body, arr a 1-dim array *)
 | ELambda (fd : fdef)               (* let func (...) -> T { ... } *)
 | EArrLit (es : list expr) (t : ty)
 | EIndex (a i : expr)
